@@ -996,13 +996,32 @@ func (f *SQLFormatter) formatWindowSpec(spec *ast.WindowSpec) error {
 		}
 		f.writeKeyword(spec.FrameClause.Type)
 		f.builder.WriteString(" ")
-		f.writeKeyword("BETWEEN")
-		f.builder.WriteString(" ")
-		f.builder.WriteString(spec.FrameClause.Start.Type)
+		// A bound is printed with its offset ("2 PRECEDING"); BETWEEN only when
+		// the frame has an end bound.
+		bound := func(b *ast.WindowFrameBound) error {
+			if b.Value != nil {
+				if err := f.formatExpression(b.Value); err != nil {
+					return err
+				}
+				f.builder.WriteString(" ")
+			}
+			f.builder.WriteString(b.Type)
+			return nil
+		}
 		if spec.FrameClause.End != nil {
+			f.writeKeyword("BETWEEN")
+			f.builder.WriteString(" ")
+			if err := bound(&spec.FrameClause.Start); err != nil {
+				return err
+			}
 			f.builder.WriteString(" ")
 			f.writeKeyword("AND")
-			f.builder.WriteString(" " + spec.FrameClause.End.Type)
+			f.builder.WriteString(" ")
+			if err := bound(spec.FrameClause.End); err != nil {
+				return err
+			}
+		} else if err := bound(&spec.FrameClause.Start); err != nil {
+			return err
 		}
 	}
 
